@@ -11,6 +11,7 @@ Expressions are nested tuples:
 Ref / Deref are dropped: a reference and its referent are the same value for
 every rule here.
 """
+import os
 import re
 import sys
 
@@ -893,6 +894,16 @@ class Crate:
     def __init__(self, facts):
         self.facts = facts
         self.kind = facts["crate_type"]
+        self.inlined_helpers = []
+        if os.environ.get("VERIF_INLINE", "1") != "0" and not facts.get("_inlined"):
+            from . import inline
+            base = inline.load_baseline()
+            if base is not None:
+                self.inlined_helpers = inline.inline_crate(facts, base.get(self.kind))
+                facts["_inlined"] = True
+                facts["_inlined_helpers"] = self.inlined_helpers
+        else:
+            self.inlined_helpers = facts.get("_inlined_helpers", [])
         self.bodies = {}
         for b in facts["bodies"]:
             self.bodies[b["path"]] = Body(b, self)
@@ -1077,9 +1088,17 @@ class FactWalker:
                 # the call at this block runs again: what was known about its previous result is void
                 continue
             keep.append((a, v))
+        # a bool local assigned the value of a comparison (`let skip = status != 0;`, a helper's return value):
+        # remember the expression, so that a later branch on the local is a branch on the comparison
+        for l, e in self.bool_defs(bb, keep):
+            keep = [(a, v) for a, v in keep if not (a[0] == "bdef" and a[1][1] == l)]
+            if e is not None:
+                keep.append((("bdef", ("var", l, None), e), True))
         ba = self.bool_assigns(bb)
         for l, v in ba.items():
             nm = self.b.names.get(l)
+            if nm is None and len(self.b.defs.get(l, [])) > 1:
+                nm = "_%d" % l                      # a temporary with several definitions (the result of a `match`)
             if nm is not None:
                 atom = ("var", l, nm)
                 if isinstance(v, tuple):
@@ -1088,6 +1107,34 @@ class FactWalker:
                 if self.relevant(atom):
                     keep.append((atom, v))
         return frozenset(keep)
+
+    def bool_defs(self, bb, facts):
+        """[(local, expr | None)] for bool locals assigned in this block from a comparison / negation / a copy of a
+        local whose defining comparison is known (None: assigned something else)"""
+        out = []
+        cur = {a[1][1]: a[2] for a, v in facts if a[0] == "bdef"}
+        for s in self.b.blocks[bb]["stmts"]:
+            if s["k"] != "assign" or s["place"]["p"]:
+                continue
+            l = s["place"]["l"]
+            if self.b.locals[l]["ty"] != "bool":
+                continue
+            rv = s["rv"]
+            e = None
+            if rv["k"] in ("bin", "un"):
+                try:
+                    e = strip_sites(self.b.rvalue_expr(rv))
+                except RecursionError:
+                    e = None
+            elif rv["k"] == "use" and ("move" in rv["op"] or "copy" in rv["op"]):
+                src = rv["op"].get("move") or rv["op"].get("copy")
+                if not src["p"]:
+                    e = cur.get(src["l"])
+            cur[l] = e
+            if e is None:
+                cur.pop(l, None)
+            out.append((l, e))
+        return out
 
     def loop_kills(self, h):
         """locals assigned anywhere in the natural loop headed by h"""
@@ -1109,6 +1156,23 @@ class FactWalker:
         for s, atom, val in self.edges(bb):
             if (bb, s) in self.cut:
                 continue
+            if atom is not None and atom[0] in ("var", "tmp") and isinstance(val, bool):
+                # a branch on a bool local whose defining comparison is known on this path
+                extra = [(a[2], val) for a, v in facts if a[0] == "bdef" and a[1][1] == atom[1]]
+                extra = [(e, v) for e, v in extra if self.relevant(e)]
+                if extra:
+                    f2 = facts
+                    okx = True
+                    for e, v in extra:
+                        if any(a == e and not _consistent(v0, v) for a, v0 in facts):
+                            okx = False
+                    if not okx:
+                        continue
+                    f2 = facts | set(extra)
+                    if self.relevant(atom):
+                        f2 = f2 | {(atom, val)}
+                    out.append((s, frozenset(f2)))
+                    continue
             if atom is None or not self.relevant(atom):
                 out.append((s, facts))
                 continue
